@@ -2,6 +2,7 @@ import KitModel.Spiffe
 import KitModel.SpiffeShape
 import KitProofs.Lemmas.Spiffe
 import KitProofs.Lemmas.SpiffeRenew
+import KitProofs.Lemmas.SpiffeSim
 /-!
 Property C19 — SPIFFE: readiness never deadlocks; the latest good SVID is served and renewed at
 half-life.  Theorems about the models in `KitModel/Spiffe.lean` (helpers in
@@ -164,6 +165,58 @@ theorem getsvid_before_run_witness :
 /-- The same schedule in the repaired code is not stuck: the first theorem applies to it. -/
 example : ∃ s, Reach .fixed init s ∧ s.run = .pendLock ∧ s.cons = [.gCall] :=
   ⟨_, .tail .run (.tail .run (.tail .callRun (.tail .callGet (.refl _) rfl) rfl) rfl) rfl, rfl, rfl⟩
+
+/-! ## soundness of the correspondence machinery -/
+
+/-- **Trace inclusion is sound**: if the state-set simulation accepts a trace of observable events
+(`accept v tr = (none, mf)`), then the final set is non-empty and EVERY state `t` in it is the end of
+a genuine run of the readiness LTS that exhibits exactly that trace: from `init`, internal steps, then
+for each event its per-state meaning `evState` (a label of the LTS — call, issuer answer, renew,
+cancel — or a predicate the state satisfies — parked at the hook, returned value, quiescent with
+exactly these calls pending) followed by internal steps the harness allows (`TraceRun`).  In
+particular `t` is reachable in the LTS, so every invariant proved for reachable states applies to
+what was observed.  (Soundness does not depend on the closure's fuel; fuel only affects
+completeness, i.e. spurious rejections, which would be reported as disagreements.) -/
+theorem accept_sound {v : Variant} {tr : List Ev} {mf : Sim} (h : accept v tr = (none, mf)) :
+    mf.states ≠ [] ∧
+    ∀ t ∈ mf.states, ∃ s0, TauStar v [] init s0 ∧ TraceRun v {} s0 tr t ∧ Reach v init t := by
+  simp only [accept] at h
+  constructor
+  · refine acceptFrom_nonempty _ _ _ _ h ?_
+    have : init ∈ (close v { states := [init] }).states := by
+      simp only [close]
+      exact closure_superset _ _ _ _ (by simp [insertNew])
+    intro h0; rw [h0] at this; simp at this
+  · intro t ht
+    obtain ⟨s0, hs0, htr⟩ := acceptFrom_sound _ _ _ _ h t ht
+    obtain ⟨s, hs, htau⟩ := close_sound hs0
+    simp only [List.mem_singleton] at hs
+    subst hs
+    have hr0 : Reach v init s0 := tauStar_reach (.refl _) htau
+    exact ⟨s0, htau, htr, traceRun_reach hr0 htr⟩
+
+/-- Non-vacuity: the trace of the schedule `get, run, ok` on the repaired code is accepted. -/
+example : (accept .fixed [.callGet false, .callRun, .req 0, .rep true, .ret 0 (.gDone (some 0)), .quiet []]).1 = none := by
+  decide
+
+/-- … and the trace the OLD code produced for it (no request ever reaches the issuer, both calls
+pending) is rejected by the repaired model and accepted by the old one. -/
+example : (accept .fixed [.callGet false, .callRun, .quiet [0]]).1 = some 2 ∧
+    (accept .cur [.callGet false, .callRun, .quiet [0]]).1 = none := by
+  decide
+
+/-- **The renewal comparison is about reachable states**: the states the driver prints for a
+scenario (`start`, then `runActs`) are reachable states of the renewal automaton, so every renewal
+theorem below applies to each line the harness compares with the real execution. -/
+theorem renew_run_reach (dirOn : Bool) (a0 : Nat) (script : List Reply) (t0 : Int) (acts : List Act)
+    (hok : acts.all Act.ok = true) :
+    ∀ t ∈ start dirOn a0 script t0 :: runActs (start dirOn a0 script t0) acts,
+      RReach dirOn a0 script t0 t := by
+  intro t ht
+  simp only [List.mem_cons] at ht
+  rcases ht with ht | ht
+  · rw [ht]; exact .start
+  · exact runActs_reach acts _ .start hok t ht
 
 /-! ## renewal automaton (fake clock; every issuer script, every validity window, every sequence of
 clock advances and trust-anchor changes) -/
